@@ -219,3 +219,37 @@ def r6(cx):
             if c.bb in b.live and not b.in_cycle(c.bb) and c.primary.endswith("Vec::push") and len(c.args) > 1 and ({id(x) for x in origin_of_operand(b, c.args[1]).calls} & kcalls):
                 stored = True
         cx.check(stored, "`%s` stores the probe count it used in the filter" % b.id, "bloom-k-not-stored|%s" % b.id, b.where())
+
+
+@rule("C13", "C13.R7", "table cursor: loading the data block for the index position sets the block cursor on every success path")
+def r7(cx):
+    """The two-level cursor is (index cursor, data-block cursor).  Every positioning method moves the index cursor, calls
+    the loader and then positions `second_level`; `mark_exhausted` and the valid-entry walkers drop `second_level` on
+    their own.  The loader therefore must leave `second_level` describing the block of the CURRENT index entry whenever
+    it returns Ok: a success path that writes nothing is sound only if it decided so by looking at `second_level`
+    itself (a side note such as a remembered offset goes stale wherever `second_level` is dropped elsewhere)."""
+    f = cx.f
+    loaders = []
+    for b in f.scan_bodies():
+        if b.kind != "method" or b.impl_trait or (b.self_ty or "").split("<")[0].split("::")[-1] != "TableIterator":
+            continue
+        if any(c.bb in b.live and c.primary.split("::")[-1] in ("read_block", "read_block_with_comparator") for c in b.calls):
+            loaders.append(b)
+    cx.floor("TableIterator methods that read a data block", len(loaders), 1)
+    for b in loaders:
+        _, W = self_field_sites(f, b, "must")
+        wb = W.get("second_level", set())
+        cx.check(bool(wb), "`%s` stores the block cursor it creates" % b.id, "loader-no-store|%s" % b.name, b.where())
+        looks = set()
+        for x in b.live:
+            t = b.blocks[x]["t"]
+            if t[0] == "switch":
+                o = origin_of_operand(b, t[1])
+                if "second_level" in o.field_names():
+                    looks.add(x)
+        free = b.reachable_from([0], avoid=wb | looks) if 0 not in wb | looks else set()
+        bad = [x for x in ok_exits(b) if x in free and not any(k == "err" for y, k in exits(b) if y == x)]
+        cx.check(not bad, "`%s`: every Ok exit follows a write to `second_level` (or a test of it)" % b.id, "loader-keeps-old-block|%s" % b.name,
+                 b.where(bad[0]) if bad else b.where(),
+                 "`%s` can return Ok without writing `second_level` and without having looked at it: after `mark_exhausted` (or a walker) dropped the block cursor, "
+                 "a re-seek into the same block finds `second_level == None`, skips the block and returns a later entry or 'not found' for a stored key" % b.id)
